@@ -84,6 +84,8 @@ def program_for(bp, decl, seed, horizon=HORIZON, with_ic=None, region_mode='rand
             params[i]['alpha_fin'] = 0.0
         elif z < 0.125:
             params[i]['gift'] = 0.0
+        if d.get('zerorate'):
+            params[i]['taxrate'] = 0.0
     declared = set()
     post = []
     pending_tre = []
@@ -174,6 +176,13 @@ def program_for(bp, decl, seed, horizon=HORIZON, with_ic=None, region_mode='rand
             # twice the lagged wealth, whatever the two spellings resolve to
             prog.append({'op': 'AddVariable', 'sector': ref(s), 'name': 'TWICE', 'desc': 'decorative sum', 'eqn': '{%s:LAG_F}' % ref(s)})
             prog.append({'op': 'AddTerm', 'sector': ref(s), 'name': 'TWICE', 'term': '{%s:LAG_F}' % ref(s)})
+            # the same requested name added twice as a term (coefficient 2) / added and subtracted (coefficient 0)
+            prog.append({'op': 'AddVariable', 'sector': ref(s), 'name': 'DBL', 'desc': 'decorative double', 'eqn': ''})
+            prog.append({'op': 'AddTerm', 'sector': ref(s), 'name': 'DBL', 'term': '{%s:LAG_F}' % ref(s)})
+            prog.append({'op': 'AddTerm', 'sector': ref(s), 'name': 'DBL', 'term': '{%s:LAG_F}' % ref(s)})
+            prog.append({'op': 'AddVariable', 'sector': ref(s), 'name': 'NIL', 'desc': 'decorative nothing', 'eqn': ''})
+            prog.append({'op': 'AddTerm', 'sector': ref(s), 'name': 'NIL', 'term': '{%s:LAG_F}' % ref(s)})
+            prog.append({'op': 'AddTerm', 'sector': ref(s), 'name': 'NIL', 'term': '-{%s:LAG_F}' % ref(s)})
         if k in ('CentralBank', 'GoldStandardCentralBank') and d['tre'] and not d['trector']:
             pending_tre.append(s)
         for cb in list(pending_tre):
@@ -184,11 +193,21 @@ def program_for(bp, decl, seed, horizon=HORIZON, with_ic=None, region_mode='rand
     for i, d in enumerate(secs, 1):
         for m in d.get('late', []):
             prog.append({'op': 'AddMarket', 'sector': ref(i), 'market': ref(m)})
-    for r in bp['suppliers']:
+    # the order in which the suppliers of a market are registered is the user's: rule first or residual first
+    sup_statements = list(bp['suppliers'])
+    if rnd.random() < 0.5:
+        sup_statements.reverse()
+    for r in sup_statements:
         eqn = ''
         if r['rule']:
             # placeholder embedded in a supplier allocation rule (as the REG builders do)
             eqn = '%0.2f*{%s:DEM_%s}' % (_dec(rnd, 0.05, 0.3), ref(r['mkt']), secs[r['mkt'] - 1]['code'])
+            # a rule may also be a plain number - a constant amount, zero included (a parameter table's 'exports = 0.0')
+            z = rnd.random()
+            if z < 0.15:
+                eqn = 0.0
+            elif z < 0.25:
+                eqn = 2.5
         prog.append({'op': 'AddSupplier', 'market': ref(r['mkt']), 'supplier': ref(r['sup']), 'eqn': eqn})
     cur_of = {c['code']: c['cur'] for c in bp['countries']}
     cur_of['EXT'] = 'NUMERAIRE'
